@@ -1,6 +1,7 @@
 #!/bin/sh
 # Regenerates _CoqProject from the files on disk and builds every .vo (full build, no -vos).
 cd "$(dirname "$0")" || exit 2
+ulimit -s unlimited 2>/dev/null || ulimit -s $(ulimit -Hs) 2>/dev/null || true
 {
   echo "-Q . CSS"
   echo "-arg -w -arg -notation-overridden,-deprecated-hint-without-locality,-deprecated-instance-without-locality"
